@@ -375,3 +375,7 @@ CORPUS += [
     V("C06", "sdvrp-final-assert-includes-the-depot-column", _SD, "assert (demands[:, 1:] == 0).all()", "assert (demands == 0).all()", "C06.q"),
     V("C06", "eq-sdvrp-final-assert-ellipsis", _SD, "assert (demands[:, 1:] == 0).all()", "assert (demands[..., 1:] == 0).all()", None),
 ]
+CORPUS += [
+    V("C19", "fjsp-file-names-fixed-width-again", _FPP, "    width = max(4, len(str(len(instances))))", "    width = 4", "C19.i"),
+    V("C19", "eq-fjsp-file-names-exact-width", _FPP, "    width = max(4, len(str(len(instances))))", "    width = len(str(len(instances)))", None),
+]
